@@ -609,3 +609,105 @@ func TestPropSuperfluid(t *testing.T) {
 		}
 	})
 }
+
+// TestRegress_C11_scenario_stake_rounds_to_zero is a fixed history of the property (the shape of seed c11a, which the
+// random search reaches only at some seeds): a lock worth a few base units of OSMO is delegated, the price of the share
+// collapses so that the whole stake of the intermediary account is force-undelegated at the next epoch, the price
+// recovers, and the following epoch must bring the stake back to the risk-adjusted value of the lock.
+func TestRegress_C11_scenario_stake_rounds_to_zero(t *testing.T) {
+	c := chain.New(t)
+	sk, sfk := c.App.StakingKeeper, c.App.SuperfluidKeeper
+	bond, _ := sk.BondDenom(c.Ctx)
+	c.EnableSuperfluidDurations()
+	c.App.MintKeeper.SetMinter(c.Ctx, minttypes.NewMinter(osmomath.ZeroDec()))
+	vals, _ := sk.GetAllValidators(c.Ctx)
+	val := vals[0].GetOperator()
+	va, _ := sdk.ValAddressFromBech32(val)
+	big := osmomath.NewIntWithDecimal(1, 24)
+	for a := 0; a < 4; a++ {
+		c.Fund(chain.Actor(a), sdk.NewCoins(coin(bond, big), coin("token0", big), coin("uosmo", big)))
+	}
+	msg := balancer.NewMsgCreateBalancerPool(chain.Actor(3), balancer.PoolParams{SwapFee: osmomath.NewDecWithPrec(1, 3), ExitFee: osmomath.ZeroDec()},
+		[]balancer.PoolAsset{{Weight: osmomath.NewInt(1), Token: coin(bond, osmomath.NewInt(1_000_000_000))}, {Weight: osmomath.NewInt(1), Token: coin("token0", osmomath.NewInt(10_000_000_000))}}, "")
+	if r := c.Exec(&msg); !r.OK() {
+		t.Fatalf("create pool: %v", r.Err)
+	}
+	poolID := c.App.PoolManagerKeeper.GetNextPoolId(c.Ctx) - 1
+	share := gammtypes.GetPoolShareDenom(poolID)
+	if err := sfk.AddNewSuperfluidAsset(c.Ctx, sftypes.SuperfluidAsset{Denom: share, AssetType: sftypes.SuperfluidAssetTypeLPShare}); err != nil {
+		t.Fatal(err)
+	}
+	if r := c.Exec(&gammtypes.MsgJoinPool{Sender: chain.Actor(0).String(), PoolId: poolID, ShareOutAmount: osmomath.NewIntWithDecimal(50, 18), TokenInMaxs: sdk.NewCoins(coin(bond, big), coin("token0", big))}); !r.OK() {
+		t.Fatalf("join: %v", r.Err)
+	}
+	epochID := sfk.GetEpochIdentifier(c.Ctx)
+	c.App.EpochsKeeper.BeginBlocker(c.Ctx)
+	epoch := func() {
+		ei := c.App.EpochsKeeper.GetEpochInfo(c.Ctx, epochID)
+		end := ei.CurrentEpochStartTime.Add(ei.Duration).Add(time.Second)
+		if end.Before(c.Ctx.BlockTime()) {
+			end = c.Ctx.BlockTime().Add(time.Second)
+		}
+		c.Ctx = c.Ctx.WithBlockTime(end).WithBlockHeight(c.Ctx.BlockHeight() + 1)
+		c.App.EpochsKeeper.BeginBlocker(c.Ctx)
+		superfluid.BeginBlocker(c.Ctx, *sfk, c.App.EpochsKeeper)
+	}
+	epoch() // multiplier set
+	mult := sfk.GetOsmoEquivalentMultiplier(c.Ctx, share)
+	if !mult.IsPositive() {
+		t.Fatalf("harness: multiplier %s", mult)
+	}
+	amt := osmomath.NewDec(2 * 3).Quo(mult).Ceil().TruncateInt().AddRaw(1) // worth about 3 base units after risk adjustment
+	r := c.Exec(sftypes.NewMsgLockAndSuperfluidDelegate(chain.Actor(0), sdk.NewCoins(coin(share, amt)), va))
+	if !r.OK() {
+		t.Fatalf("lock and delegate %s: %v", amt, r.Err)
+	}
+	stake := func() osmomath.Int {
+		ia := sftypes.NewSuperfluidIntermediaryAccount(share, val, 0)
+		del, err := sk.GetDelegation(c.Ctx, ia.GetAccAddress(), va)
+		if err != nil {
+			return osmomath.ZeroInt()
+		}
+		v, _ := sk.GetValidator(c.Ctx, va)
+		return v.TokensFromShares(del.Shares).RoundInt()
+	}
+	expected := func() osmomath.Int {
+		e, err := sfk.GetSuperfluidOSMOTokens(c.Ctx, share, amt)
+		if err != nil {
+			t.Fatal(err)
+		}
+		return e
+	}
+	swap := func(in, out string, pct int64) {
+		pi, _ := c.App.PoolManagerKeeper.GetPool(c.Ctx, poolID)
+		a := c.Bal(pi.GetAddress(), in).Amount.MulRaw(pct).QuoRaw(100)
+		if r := c.Exec(&pmtypes.MsgSwapExactAmountIn{Sender: chain.Actor(3).String(), Routes: []pmtypes.SwapAmountInRoute{{PoolId: poolID, TokenOutDenom: out}}, TokenIn: coin(in, a), TokenOutMinAmount: osmomath.OneInt()}); !r.OK() {
+			t.Fatalf("swap: %v", r.Err)
+		}
+	}
+	if s := stake(); !s.IsPositive() {
+		t.Fatalf("harness: nothing staked after the delegation (stake %s, expected %s)", s, expected())
+	}
+	// the bond denom leaves the pool: a share is worth a hundredth of what it was
+	for i := 0; i < 4; i++ {
+		swap("token0", bond, 300)
+	}
+	epoch()
+	if e := expected(); !e.IsZero() {
+		t.Skipf("harness: the price drop did not round the lock's value to zero (%s)", e)
+	}
+	if s := stake(); !s.IsZero() {
+		t.Fatalf("after the collapse the lock is worth 0 but %s is still staked", s)
+	}
+	// and comes back
+	for i := 0; i < 6; i++ {
+		swap(bond, "token0", 300)
+	}
+	epoch()
+	if e, s := expected(), stake(); !e.Equal(s) {
+		t.Fatalf("after the recovery and an epoch refresh the lock is worth %s but %s is staked by its intermediary account", e, s)
+	}
+	if !expected().IsPositive() {
+		t.Fatalf("harness: the recovery did not make the lock worth something again")
+	}
+}
